@@ -46,9 +46,12 @@ func loadKnownFindings(path string) []*kfEntry {
 }
 
 func (k *kfEntry) matches(prop, obl string) bool {
-	if k.Fixed || k.Property != prop {
+	if k.Fixed {
 		return false
 	}
+	// obligation names are unique across properties: a finding anchored in a
+	// function that serves several properties is the same finding in each
+	_ = prop
 	if strings.HasSuffix(k.Obligation, "*") {
 		return strings.HasPrefix(obl, strings.TrimSuffix(k.Obligation, "*"))
 	}
